@@ -96,6 +96,10 @@ func (g *Circle) Contains(obj Object) bool {
 	case *Circle:
 		return other.Distance(g)+other.meters <= g.meters
 	case Collection:
+		if obj.Empty() {
+			// there is nothing to contain
+			return false
+		}
 		for _, p := range other.Children() {
 			if !g.Contains(p) {
 				return false
